@@ -31,3 +31,168 @@ def gcd(a, b):
 def inverse(u, m):
     """the x in [0, m) with u*x == 1 (mod m); meaningful when m > 0 and gcd(u, m) == 1"""
     pass
+
+
+# ====================================================================================================== primality
+SIG['probable_prime'] = {'sort': 'bool', 'uf': True}
+
+
+def probable_prime(n):
+    """verdict of the probabilistic primality test on n (C14 proves the test sound: a prime is never called COMPOSITE).
+    True = PROBABLY_PRIME, False = COMPOSITE"""
+    pass
+
+
+# ====================================================================================================== curves
+# Curve identifiers of the library (Crypto.PublicKey._point.CurveID), used as the first argument of every curve-indexed
+# spec function.  Parameters: FIPS 186-4 D.1.2.1-5 (P-192 ... P-521, a = -3), RFC 8032 5.1 / 5.2 (edwards25519, edwards448),
+# RFC 7748 4.1 / 4.2 (curve25519 u = 9, curve448 u = 5).  The numbers below are generated from /verif/spec/curves.py whose
+# selfcheck() validates them mathematically (primality of p and n, base point on the curve, n*G neutral).
+P192, P224, P256, P384, P521, ED25519, ED448, CURVE25519, CURVE448 = 1, 2, 3, 4, 5, 6, 7, 8, 9
+
+CURVE_P = {
+    1: 0xfffffffffffffffffffffffffffffffeffffffffffffffff,
+    2: 0xffffffffffffffffffffffffffffffff000000000000000000000001,
+    3: 0xffffffff00000001000000000000000000000000ffffffffffffffffffffffff,
+    4: 0xfffffffffffffffffffffffffffffffffffffffffffffffffffffffffffffffeffffffff0000000000000000ffffffff,
+    5: 0x1ffffffffffffffffffffffffffffffffffffffffffffffffffffffffffffffffffffffffffffffffffffffffffffffffffffffffffffffffffffffffffffffffff,
+    6: 0x7fffffffffffffffffffffffffffffffffffffffffffffffffffffffffffffed,
+    7: 0xfffffffffffffffffffffffffffffffffffffffffffffffffffffffeffffffffffffffffffffffffffffffffffffffffffffffffffffffff,
+    8: 0x7fffffffffffffffffffffffffffffffffffffffffffffffffffffffffffffed,
+    9: 0xfffffffffffffffffffffffffffffffffffffffffffffffffffffffeffffffffffffffffffffffffffffffffffffffffffffffffffffffff,
+}
+CURVE_ORDER = {
+    1: 0xffffffffffffffffffffffff99def836146bc9b1b4d22831,
+    2: 0xffffffffffffffffffffffffffff16a2e0b8f03e13dd29455c5c2a3d,
+    3: 0xffffffff00000000ffffffffffffffffbce6faada7179e84f3b9cac2fc632551,
+    4: 0xffffffffffffffffffffffffffffffffffffffffffffffffc7634d81f4372ddf581a0db248b0a77aecec196accc52973,
+    5: 0x1fffffffffffffffffffffffffffffffffffffffffffffffffffffffffffffffffa51868783bf2f966b7fcc0148f709a5d03bb5c9b8899c47aebb6fb71e91386409,
+    6: 0x1000000000000000000000000000000014def9dea2f79cd65812631a5cf5d3ed,
+    7: 0x3fffffffffffffffffffffffffffffffffffffffffffffffffffffff7cca23e9c44edb49aed63690216cc2728dc58f552378c292ab5844f3,
+    8: 0x1000000000000000000000000000000014def9dea2f79cd65812631a5cf5d3ed,
+    9: 0x3fffffffffffffffffffffffffffffffffffffffffffffffffffffff7cca23e9c44edb49aed63690216cc2728dc58f552378c292ab5844f3,
+}
+CURVE_B = {
+    1: 0x64210519e59c80e70fa7e9ab72243049feb8deecc146b9b1,
+    2: 0xb4050a850c04b3abf54132565044b0b7d7bfd8ba270b39432355ffb4,
+    3: 0x5ac635d8aa3a93e7b3ebbd55769886bc651d06b0cc53b0f63bce3c3e27d2604b,
+    4: 0xb3312fa7e23ee7e4988e056be3f82d19181d9c6efe8141120314088f5013875ac656398d8a2ed19d2a85c8edd3ec2aef,
+    5: 0x51953eb9618e1c9a1f929a21a0b68540eea2da725b99b315f3b8b489918ef109e156193951ec7e937b1652c0bd3bb1bf073573df883d2c34f1ef451fd46b503f00,
+    6: None, 7: None, 8: None, 9: None,
+}
+CURVE_GX = {
+    1: 0x188da80eb03090f67cbf20eb43a18800f4ff0afd82ff1012,
+    2: 0xb70e0cbd6bb4bf7f321390b94a03c1d356c21122343280d6115c1d21,
+    3: 0x6b17d1f2e12c4247f8bce6e563a440f277037d812deb33a0f4a13945d898c296,
+    4: 0xaa87ca22be8b05378eb1c71ef320ad746e1d3b628ba79b9859f741e082542a385502f25dbf55296c3a545e3872760ab7,
+    5: 0xc6858e06b70404e9cd9e3ecb662395b4429c648139053fb521f828af606b4d3dbaa14b5e77efe75928fe1dc127a2ffa8de3348b3c1856a429bf97e7e31c2e5bd66,
+    6: 0x216936d3cd6e53fec0a4e231fdd6dc5c692cc7609525a7b2c9562d608f25d51a,
+    7: 0x4f1970c66bed0ded221d15a622bf36da9e146570470f1767ea6de324a3d3a46412ae1af72ab66511433b80e18b00938e2626a82bc70cc05e,
+    8: 0x9,
+    9: 0x5,
+}
+CURVE_GY = {
+    1: 0x7192b95ffc8da78631011ed6b24cdd573f977a11e794811,
+    2: 0xbd376388b5f723fb4c22dfe6cd4375a05a07476444d5819985007e34,
+    3: 0x4fe342e2fe1a7f9b8ee7eb4a7c0f9e162bce33576b315ececbb6406837bf51f5,
+    4: 0x3617de4a96262c6f5d9e98bf9292dc29f8f41dbd289a147ce9da3113b5f0b8c00a60b1ce1d7e819d7a431d7c90ea0e5f,
+    5: 0x11839296a789a3bc0045c8a5fb42c7d1bd998f54449579b446817afbd17273e662c97ee72995ef42640c550b9013fad0761353c7086a272c24088be94769fd16650,
+    6: 0x6666666666666666666666666666666666666666666666666666666666666658,
+    7: 0x693f46716eb6bc248876203756c9c7624bea73736ca3984087789c1e05a0c2d73ad3ff1ce67c39c4fdbd132c4ed7c8ad9808795bf230fa14,
+    8: None, 9: None,
+}
+# size of the field in bits (FIPS 186-4 / RFC 7748: 255, 448)
+CURVE_BITS = {1: 192, 2: 224, 3: 256, 4: 384, 5: 521, 6: 255, 7: 448, 8: 255, 9: 448}
+# namedCurve OIDs: RFC 5480 2.1.1.1 (secp192r1 = prime192v1 ... secp521r1), RFC 8410 3 (id-X25519 110, id-X448 111, id-Ed25519 112, id-Ed448 113)
+CURVE_OID = {1: '1.2.840.10045.3.1.1', 2: '1.3.132.0.33', 3: '1.2.840.10045.3.1.7', 4: '1.3.132.0.34', 5: '1.3.132.0.35',
+             6: '1.3.101.112', 7: '1.3.101.113', 8: '1.3.101.110', 9: '1.3.101.111'}
+# canonical names and aliases: the library's documented "ECC table" (Doc/src/public_key/ecc.rst)
+CURVE_CANONICAL = {1: 'NIST P-192', 2: 'NIST P-224', 3: 'NIST P-256', 4: 'NIST P-384', 5: 'NIST P-521',
+                   6: 'Ed25519', 7: 'Ed448', 8: 'Curve25519', 9: 'Curve448'}
+CURVE_DOC_NAMES = {
+    1: ('NIST P-192', 'p192', 'P-192', 'prime192v1', 'secp192r1'),
+    2: ('NIST P-224', 'p224', 'P-224', 'prime224v1', 'secp224r1'),
+    3: ('NIST P-256', 'p256', 'P-256', 'prime256v1', 'secp256r1'),
+    4: ('NIST P-384', 'p384', 'P-384', 'prime384v1', 'secp384r1'),
+    5: ('NIST P-521', 'p521', 'P-521', 'prime521v1', 'secp521r1'),
+    6: ('Ed25519', 'ed25519'), 7: ('Ed448', 'ed448'), 8: ('Curve25519', 'curve25519'), 9: ('Curve448', 'curve448'),
+}
+# public-key algorithm names of the SSH protocol: RFC 5656 6.1 (ecdsa-sha2-<identifier>; nistp192/224 follow the same
+# pattern and are what OpenSSH-compatible tools emit for those curves), RFC 8709 4 (ssh-ed25519)
+CURVE_OPENSSH = {1: 'ecdsa-sha2-nistp192', 2: 'ecdsa-sha2-nistp224', 3: 'ecdsa-sha2-nistp256', 4: 'ecdsa-sha2-nistp384',
+                 5: 'ecdsa-sha2-nistp521', 6: 'ssh-ed25519', 7: None, 8: None, 9: None}
+
+
+def curve_p(cid):
+    return CURVE_P[cid]
+
+
+def curve_order(cid):
+    return CURVE_ORDER[cid]
+
+
+def curve_bytes(cid):
+    """octets of a field element: ceil(bits / 8)  (SEC 1 2.3.5, RFC 8032 'b/8' is curve_bytes + 1 for Ed448)"""
+    return (CURVE_BITS[cid] + 7) // 8
+
+
+def is_weierstrass(cid):
+    return cid >= 1 and cid <= 5
+
+
+def is_edwards(cid):
+    return cid == 6 or cid == 7
+
+
+def is_montgomery(cid):
+    return cid == 8 or cid == 9
+
+
+# ====================================================================================================== secret scalars
+def prune25519(h):
+    """RFC 8032 5.1.5 step 2 / RFC 7748 5 decodeScalar25519 on a 32-octet string: clear the lowest three bits of the first
+    octet, clear the highest bit of the last octet, set the second highest bit of the last octet"""
+    return bytes([h[0] & 0xF8]) + h[1:31] + bytes([(h[31] & 0x7F) | 0x40])
+
+
+def prune_ed448(h):
+    """RFC 8032 5.2.5 step 2 on a 57-octet string: clear the two least significant bits of the first octet, clear all eight
+    bits of the last octet, set the highest bit of the second to last octet"""
+    return bytes([h[0] & 0xFC]) + h[1:55] + bytes([h[55] | 0x80]) + bytes([0])
+
+
+def prune_x448(k):
+    """RFC 7748 5 decodeScalar448 on a 56-octet string: k[0] &= 252; k[55] |= 128"""
+    return bytes([k[0] & 0xFC]) + k[1:55] + bytes([k[55] | 0x80])
+
+
+def seed_len(cid):
+    """length of the private seed: RFC 8032 5.1.5 (32), 5.2.5 (57); RFC 7748 5 (32, 56)"""
+    if cid == 6:
+        return 32
+    if cid == 7:
+        return 57
+    if cid == 8:
+        return 32
+    return 56
+
+
+# ====================================================================================================== low-order Montgomery inputs
+# u-coordinates (as the integers a 32 / 56 octet string can encode, i.e. including the non-canonical encodings >= p) of the
+# points of small order on the curve and on its twist.  X25519: the list of https://cr.yp.to/ecdh.html#validate, referenced
+# by RFC 7748 section 7 (twelve values = the classes 0, 1, x1, x2, -1 mod p below 2^256).  X448: the classes 0, 1, -1 mod p
+# below 2^448 (SP 800-186 D.1: cofactor 4; points of order 1, 2, 4 have u in {0, 1, -1}).
+# Cross-checked with the RFC 7748 ladder: exactly these inputs give the all-zero output for every clamped scalar.
+_P25519 = 2**255 - 19
+_X1 = 325606250916557431795983626356110631294008115727848805560023387167927233504
+_X2 = 39382357235489614581723060781553021112529911719440698176882885853963445705823
+X25519_LOW_ORDER = (0, 1, _X1, _X2, _P25519 - 1, _P25519, _P25519 + 1, _P25519 + _X1, _P25519 + _X2,
+                    2 * _P25519 - 1, 2 * _P25519, 2 * _P25519 + 1)
+_P448 = 2**448 - 2**224 - 1
+X448_LOW_ORDER = (0, 1, _P448 - 1, _P448, _P448 + 1)
+
+
+def low_order_u(cid, u):
+    if cid == 8:
+        return u in X25519_LOW_ORDER
+    return u in X448_LOW_ORDER
